@@ -125,7 +125,9 @@ fn slice_classes(ctx: &Ctx) {
             for lm in 0..8usize {
                 let goff = b.gbase + gm;
                 let loff = b.lbase + lm;
-                let entry_points: [&str; 14] = [
+                let entry_points: [&str; 18] = [
+                    // (the local buffer is 3 elements longer than the guest slice: the copy is clamped)
+                    "copy_from<u8>(longer buffer)", "copy_to<u8>(longer buffer)", "array.copy_from<u8>(longer buffer)", "array.copy_to<u8>(longer buffer)",
                     "write", "read", "write_slice", "read_slice", "copy_from<u8>", "copy_to<u8>", "array.copy_from<u8>", "array.copy_to<u8>", "read_volatile_from(&[u8])", "write_volatile_to(&mut [u8])",
                     "write_volatile_to(Vec)", "read_volatile_from(Cursor)", "read_exact_volatile_from(&[u8])", "write_all_volatile_to(&mut [u8])",
                 ];
@@ -156,6 +158,22 @@ fn slice_classes(ctx: &Ctx) {
                         })),
                         "copy_to<u8>" => (Dir::FromGuest, traced(|| {
                             vs.subslice(goff, len).unwrap().copy_to(&mut local[lo..hi]);
+                            Ok(())
+                        })),
+                        "copy_from<u8>(longer buffer)" => (Dir::ToGuest, traced(|| {
+                            vs.subslice(goff, len).unwrap().copy_from(&local[lo..hi + 3]);
+                            Ok(())
+                        })),
+                        "copy_to<u8>(longer buffer)" => (Dir::FromGuest, traced(|| {
+                            vs.subslice(goff, len).unwrap().copy_to(&mut local[lo..hi + 3]);
+                            Ok(())
+                        })),
+                        "array.copy_from<u8>(longer buffer)" => (Dir::ToGuest, traced(|| {
+                            vs.get_array_ref::<u8>(goff, len).unwrap().copy_from(&local[lo..hi + 3]);
+                            Ok(())
+                        })),
+                        "array.copy_to<u8>(longer buffer)" => (Dir::FromGuest, traced(|| {
+                            vs.get_array_ref::<u8>(goff, len).unwrap().copy_to(&mut local[lo..hi + 3]);
                             Ok(())
                         })),
                         "array.copy_from<u8>" => (Dir::ToGuest, traced(|| {
@@ -693,7 +711,7 @@ fn schedules(ctx: &Ctx) {
 
 pub fn run(tier: Tier, replay: Option<String>) -> i32 {
     let ctx = crate::new_ctx("C06", tier, "model_checking", &replay);
-    ctx.set_rule("(a) trace enumeration: for every transfer length 0..=8 x guest address mod 8 x local address mod 8 (576 classes) x 14 entry points that funnel into the byte-copy helper (write/read/write_slice/read_slice, copy_to/copy_from::<u8>, VolatileArrayRef<u8> copies, &[u8]/&mut [u8]/Vec<u8>/Cursor adapters, plain and exact stream forms; Vec<u8> sinks additionally in every fill state: capacity 0..=24 x bytes already held x length 1..=8 x guest address mod 8) and for whole objects of 1..16 bytes at every guest address of two adjacent regions (incl. objects straddling the boundary) through the guest-memory layer: hook H1 records kind, address and width of every primitive volatile access; required: the guest bytes accessed are exactly the range, each once, every access naturally aligned, exactly ONE access of the full width when the length is 1/2/4/8 and both addresses are aligned to it, the data arrives, and a transfer that moved bytes without a recorded volatile access is a violation; atomic store/load for all 10 integer types at every offset: Ok iff aligned, value round-trips. (b) E3: all interleavings, with a scheduling point before every primitive access, of a writer flipping 0 <-> all-ones twice and a reader reading twice (u16, u32, u64, and a 16-byte object whose first chunk is the last aligned u64 of a region): the reader may only see the old or the new value. States = choice-tree nodes, traces = schedules executed on the real code.");
+    ctx.set_rule("(a) trace enumeration: for every transfer length 0..=8 x guest address mod 8 x local address mod 8 (576 classes) x 18 entry points that funnel into the byte-copy helper (write/read/write_slice/read_slice, copy_to/copy_from::<u8> and VolatileArrayRef<u8> copies with a local buffer of the same length and a longer one, &[u8]/&mut [u8]/Vec<u8>/Cursor adapters, plain and exact stream forms; Vec<u8> sinks additionally in every fill state: capacity 0..=24 x bytes already held x length 1..=8 x guest address mod 8) and for whole objects of 1..16 bytes at every guest address of two adjacent regions (incl. objects straddling the boundary) through the guest-memory layer: hook H1 records kind, address and width of every primitive volatile access; required: the guest bytes accessed are exactly the range, each once, every access naturally aligned, exactly ONE access of the full width when the length is 1/2/4/8 and both addresses are aligned to it, the data arrives, and a transfer that moved bytes without a recorded volatile access is a violation; atomic store/load for all 10 integer types at every offset: Ok iff aligned, value round-trips. (b) E3: all interleavings, with a scheduling point before every primitive access, of a writer flipping 0 <-> all-ones twice and a reader reading twice (u16, u32, u64, and a 16-byte object whose first chunk is the last aligned u64 of a region): the reader may only see the old or the new value. States = choice-tree nodes, traces = schedules executed on the real code.");
     ctx.assume("one naturally aligned volatile access of <= 8 bytes is a single machine access (LLVM volatile semantics, x86-64/aarch64 single-copy atomicity); SC interleavings of whole primitive accesses");
     if ctx.replay_of.is_some() {
         println!("replay: deterministic enumeration; re-running it");
